@@ -5,6 +5,28 @@ V = os.path.dirname(os.path.dirname(os.path.abspath(__file__)))
 props = [json.loads(l) for l in open(os.path.join(V, 'properties.jsonl'))]
 built = subprocess.run([os.path.join(V, 'tools', 'list_built.sh')], capture_output=True, text=True).stdout.split()
 
+LEVEL = {
+ 'C01': 'Deciding step: order-chain oracle over every consumer stream / Slice snapshot of long concurrent runs, and porcupine linearizability of short histories against a sequential Buffer model whose cleaner may make any number of passes.',
+ 'C02': 'Deciding step: position model per consumer, porcupine on shared consumers, complete enumeration of operation sequences up to length 4 (quick) / 5 (thorough) against the model, and fault injection through a recording Consumer decorator for Range.',
+ 'C03': 'Deciding step: cleaner functions compared with a reference on a completely enumerated small family; sequential differential runs; an online monitor wrapped around the cleaner inside the library lock; porcupine with forced trims.',
+ 'C04': 'Deciding step: bounded-progress monitor on the quiescent size (heartbeats, not wall-clock), with the lost-wake-up and forced-trim windows entered deliberately through hook gates.',
+ 'C05': 'Deciding step: every event set is fired at every placement around the waiter (before / after the miss / held between predicate and cond.Wait / parked); the call must return within the heartbeat bound with the right result class.',
+ 'C06': 'Deciding step: receipt table per message against each Send return value, must/must-not receive sets from stamps, and one global order derived from a sentinel subscriber.',
+ 'C07': 'Deciding step: every call bounded by heartbeats with goroutine dumps, recover around every call, final accounting and a post-scenario round trip; 40 hold-until window combinations are driven through hook callbacks.',
+ 'C08': 'Deciding step: conservation in closed scenarios (registered = delivered + absorbed), per-value receipts with concurrent senders, and a completely enumerated Add-sequence family against a sequential reference.',
+ 'C09': 'Deciding step: online per-key counters at work-function entry/return (outer wrapper and inner user function), plus a gate-based independence probe.',
+ 'C10': 'Deciding step: offline checker over stamped calls and executions (exactly one outcome, started after the call, same key, supplier answered by its own execution, no state left).',
+ 'C11': 'Deciding step: the Go race detector over generated concurrent programs per type, with the harness free of shared synchronisation; thorough adds the repository suite under -race and a second Go runtime.',
+ 'C12': 'Deciding step: per-handle close semantics asserted inline and a goroutine-dump leak filter at the end state of generated programs.',
+ 'C13': 'Deciding step: porcupine linearizability against a sequential Channel model, conservation against the source, a completely enumerated sequential family, and Close-vs-Get micro-trials.',
+ 'C14': 'Deciding step: online counters (exactly once, running <= largest count requested), bounded progress and bounded bypass for starvation, invariant sampling through VerifState.',
+ 'C15': 'Deciding step: receipts per publish against an independent eligibility table, over randomised readiness/cancellation orders.',
+ 'C16': 'Deciding step: step machine against a reference for every pre-cancelled subset and cancellation order (complete for n<=3), plus simultaneous cancellations with the hook window held.',
+ 'C17': 'Deciding step: offline interval checker over stamps taken before/after each observation, so that every reported order is sound under arbitrary delays.',
+ 'C18': 'Deciding step: lock-step reference loop on completely enumerated scripts with the delays observed through the retry hooks.',
+ 'C19': 'Deciding step: differential testing of generated signatures, arguments and targets against an independent well-typedness reference, incl. a completely enumerated small family.',
+ 'C20': 'Deciding step: counting/ordering monitor with heartbeat bounds and a leak filter, cancellation raced against ticks through hook gates.',
+}
 TECH = {
  'C01': 'order-chain oracle over unique-id histories + porcupine linearizability (nondeterministic cleaner model), hook-perturbed schedules',
  'C02': 'per-consumer sequential model over recorded positions, porcupine on shared consumers, fault-injecting Consumer decorator for Range, bounded-exhaustive op sequences',
@@ -16,10 +38,10 @@ TECH = {
  'C08': 'closed-scenario conservation oracle + sequential registration-count reference on boundary deltas',
  'C09': 'online per-key active-execution counter, gate-based independence probe',
  'C10': 'offline exactly-once / started-after-call checker over stamped call and execution records',
- 'C11': 'Go race detector over contract-respecting concurrent programs per type (harness sync stripped), reports de-duplicated by function pair',
+ 'C11': 'Go race detector over contract-respecting concurrent programs per type (harness sync stripped), reports attributed by source file and de-duplicated by function pair; thorough: + repository suite under -race, + go1.26.8 runtime',
  'C12': 'goroutine-dump leak filter + per-handle close semantics monitor over generated programs',
  'C13': 'porcupine linearizability vs sequential Channel model + conservation + Close-vs-Get micro-trials',
- 'C14': 'online running/max counters, exactly-once result ids, bounded-progress, VerifState at quiescence',
+ 'C14': 'online running/max counters, exactly-once result ids, bounded progress and bounded bypass (sustained arrivals), VerifState invariant sampling',
  'C15': 'receipt table per publish vs independent eligibility reference (Go assignability), permuted readiness/cancel orders',
  'C16': 'step-machine reference over cancellation orders (enumerated n<=3) + simultaneous-cancel stress with hook gate',
  'C17': 'offline interval/order checker over stamped Do/done/stop/exit events, directed last-done-vs-Do races',
@@ -41,7 +63,7 @@ for p in props:
         'engine': 'bbverif',
         'level_claimed': {
             'category': 'exploration',
-            'text': 'Runtime monitoring: the real library is executed under generated hostile workloads (seeded, hook-perturbed schedules, directed windows) while a deterministic oracle checks every recorded execution; holds on the executions explored (counts in the evidence file), not a proof over all schedules/inputs.',
+            'text': 'Runtime monitoring: the real library is executed under generated hostile workloads (seeded, hook-perturbed schedules, directed windows) while a deterministic oracle checks every recorded execution; it holds on the executions explored (counts in the evidence file) and is not a proof over all schedules/inputs. ' + LEVEL[pid],
             'design_ref': 'DESIGN.md §7 ' + pid,
         },
         'level_note': 'Trusted: the harness oracles/reference models (DESIGN.md appendix A), the Go runtime and race detector, the verif-tagged hooks being behaviour-preserving (add-only one-line calls). Schedules are sampled, liveness is restated as generous heartbeat bounds.',
